@@ -30,7 +30,7 @@ def _trace_sig(t):
 
 def _batch(spec, samples=None):
     import mudslide
-    model = mudslide.models.scattering_models[spec["model"]]()
+    model = spec["_model"] if spec.get("_model") is not None else mudslide.models.scattering_models[spec["model"]]()
     kw = dict(samples=samples or spec["samples"], dt=spec["dt"], bounds=[-spec["box"], spec["box"]], max_steps=spec["maxsteps"])
     if spec.get("_arrays") is not None:
         # the user's OWN arrays (position, momentum, a complex density matrix as initial state), handed to every run and every
@@ -54,6 +54,11 @@ def oracle_repro(args):
     import random as pyrandom
     spec = dict(args)
     # "from seeds": nothing may come from the process-wide generators; they are put in different states before each run
+    if spec.get("shared_model"):
+        # ONE model object serves the run, its repetition and the bigger batch (a scan over momenta, a later batch): nothing a run
+        # leaves behind in it - eigenvector phases, buffers - may reach the next one
+        import mudslide
+        spec["_model"] = mudslide.models.scattering_models[spec["model"]]()
     keep = None
     if spec.get("array_state") and spec["cls"] != "EvenSamplingTrajectory":
         spec["_arrays"] = (np.array([float(spec["x0"])]), np.array([float(spec["k"])]),
@@ -393,8 +398,16 @@ def run(ctx):
         elif (i // 5) % 4 in (0, 2) and cls not in ("EvenSamplingTrajectory", "AdiabaticMD"):
             spec.update(array_state=True, samples=max(2, spec["samples"]))
             ctx.count("repro_with_the_callers_own_arrays")
+        if i % 5 in (0, 1, 2) and (i // 5) % 2 == 1:
+            # three-state Subotnik models (their tracked eigenvector phases at the end of a transmitted run differ from eigh's
+            # native ones at the start), one model object for everything
+            spec.update(model=["modelx", "models"][i % 2], shared_model=True, x0=float(-rng.uniform(8, 9)), box=9.5, k=float(rng.uniform(15, 30)),
+                        samples=2, maxsteps=800)
+            spec.pop("array_state", None)
+            ctx.count("repro_on_one_shared_model_object")
         ok, obs, req, text = oracle_repro(spec)
         spec.pop("_arrays", None)
+        spec.pop("_model", None)
         ctx.case(("repro", cls, spec["samples"], spec["model"] == "super"), {"check": "repro", "spec": spec})
         ctx.count("repro:" + cls)
         if not ok:
